@@ -503,12 +503,12 @@ class _Num:
     def __ge__(self, o): return self._b(o, lambda a, b: a >= b)
 
     def __eq__(self, o):
-        if o is None:
+        if o is None or isinstance(o, (str, bytes)):
             return False
         return self._b(o, lambda a, b: a == b)
 
     def __ne__(self, o):
-        if o is None:
+        if o is None or isinstance(o, (str, bytes)):
             return True
         return self._b(o, lambda a, b: a != b)
 
